@@ -93,10 +93,12 @@ def run(ctx: Ctx, scale: float = 1.0) -> None:
                     t = 1 if c["same_tag"] else i + 1
                     return (t if pl in ("group", "both") else None, t if pl in ("context", "both") else None)
 
-                variants = {ident(i, pl) for i, pl in enumerate(c["placements"])}
+                ids = [ident(i, pl) for i, pl in enumerate(c["placements"])]
+                # two requested features land in ONE feature set (same group options) but differ in their context options
+                same_set_diff_ctx = any(a[0] == b[0] and a[1] != b[1] for a in ids for b in ids)
                 cls = None
-                if len(variants) >= 2 and isinstance(got, dict) and "have the same filters" in str(got.get("err", "")):
-                    cls = "global-filter-with-two-option-variants-of-one-group-rejected"
+                if same_set_diff_ctx and isinstance(got, dict) and "have the same filters" in str(got.get("err", "")):
+                    cls = "global-filter-with-two-context-variants-in-one-feature-set-rejected"
                 ctx.violation("e2e_opts", case, f"rows returned under a global filter differ from the rows satisfying it (feature options: {c['placements']})", got, exp, finding_class=cls)
 
 
